@@ -431,6 +431,23 @@ def vec_method(I, v, name, args, node):
         for x in v.items:
             out.extend(I.iter_items(x, node))
         return Vec(out)
+    if name in ("sort_by_key", "sort_unstable_by_key") and v.items:
+        # keys that are concrete strings (or concrete ints): sort in place, as the real call does
+        keys = []
+        for it in v.items:
+            kx = I.deref(I.apply(a[0], [it], node))
+            if isinstance(kx, Str) and kx.s is not None and all(c.conc for c in kx.chars()):
+                keys.append("".join(chr(c.v) for c in kx.chars()).encode("utf-8"))
+            elif isinstance(kx, Int) and kx.conc:
+                keys.append(kx.v)
+            else:
+                keys = None
+                break
+        if keys is not None and len({type(k) for k in keys}) == 1:
+            used("Vec::" + name)
+            order = sorted(range(len(keys)), key=lambda i: keys[i])
+            v.items[:] = [v.items[i] for i in order]
+            return UNIT
     if name in ("sort", "sort_by", "sort_by_key", "sort_unstable", "dedup", "join", "retain", "sort_unstable_by_key"):
         I.havocs.add("Vec::" + name)
         return Opaque("Vec::" + name)
